@@ -86,8 +86,13 @@ Proof. destruct c; unfold pause_plain; rr. Qed.
 
 Lemma regs_exit_ctx t c s : regs (exit_ctx t c s) = regs s.
 Proof.
-  unfold exit_ctx. rewrite regs_pause_plain. destruct (get_task t s); rr.
+  unfold exit_ctx. destruct (get_task t s) as [tk|]; [destruct (tk_cact tk)|]; rewrite ?regs_pause_plain; rr.
 Qed.
+
+(* leaving a with-block in a task whose contexts are active: leave_context, then pause() *)
+Lemma exit_ctx_active t c s out tk : get t s = Some (mkFut out (KTask tk)) -> tk_cact tk = true ->
+  exit_ctx t c s = pause_plain t c (set_task t (tk_with_ctxs tk (remove_ctx c (tk_ctxs tk)) (tk_cact tk)) s).
+Proof. intros Hg Hc. unfold exit_ctx, get_task. rewrite Hg. destruct (tk_cact tk); [reflexivity|discriminate]. Qed.
 
 Lemma regs_complete_task t o s : regs (complete_task t o s) = regs s.
 Proof.
@@ -202,7 +207,7 @@ Section Stable1.
   Lemma pr_pause_plain t c s : pr (pause_plain t c s) = pr s.
   Proof. destruct c; unfold pause_plain; prr. Qed.
   Lemma pr_exit_ctx t c s : pr (exit_ctx t c s) = pr s.
-  Proof. unfold exit_ctx. rewrite pr_pause_plain. destruct (get_task t s); prr. Qed.
+  Proof. unfold exit_ctx. destruct (get_task t s) as [tk|]; [destruct (tk_cact tk)|]; rewrite ?pr_pause_plain; prr. Qed.
 
   Lemma pr_complete_task t o s : pr (complete_task t o s) = pr s.
   Proof.
